@@ -125,8 +125,12 @@ impl<G: AffineRepr> ConstraintSystem<FOf<G>> for RefCS<G> {
 }
 
 impl<G: AffineRepr> RoleCS<G> for RefCS<G> {
-    fn role_commit(&mut self, sh: &mut Shared<G>, zero: bool) -> Variable<FOf<G>> {
-        let (v, vb) = if zero { (FOf::<G>::zero(), FOf::<G>::zero()) } else { (sh.draw("v"), sh.draw("vb")) };
+    fn role_commit(&mut self, sh: &mut Shared<G>, mode: u8) -> Variable<FOf<G>> {
+        let (v, vb) = match mode {
+            1 => (FOf::<G>::zero(), FOf::<G>::zero()),
+            2 if !self.v.is_empty() => (self.v[0], self.vb[0]),
+            _ => (sh.draw("v"), sh.draw("vb")),
+        };
         let j = self.V.len();
         let V: G = if self.prover { (self.pc_B * v + self.pc_Bb * vb).into_affine() } else { sh.verifier_commitments[j] };
         t_point(&mut self.t, b"V", &V);
